@@ -21,6 +21,7 @@ type mField struct {
 	Nullable bool   `json:"nullable"`
 	Kind     string `json:"kind"` // string int int64 double bool date arr map ref
 	RO, WO   bool
+	SkipPtr  bool // x-go-type-skip-optional-pointer: true (an optional member without a pointer: absent = zero value)
 }
 
 type mSchema struct {
@@ -60,6 +61,8 @@ func (f mField) schema() map[string]any {
 		s = map[string]any{"type": "string", "format": "date-time"}
 	case "email":
 		s = map[string]any{"type": "string", "format": "email"}
+	case "rawjson": // json.RawMessage: an optional one has no pointer either
+		s = map[string]any{"type": "string", "format": "json"}
 	case "arrobj": // array of inline objects that allow (typed) additional members
 		s = map[string]any{"type": "array", "items": map[string]any{"type": "object", "required": []string{"name"}, "properties": map[string]any{"name": map[string]any{"type": "string"}},
 			"additionalProperties": map[string]any{"type": "integer", "format": "int64"}}}
@@ -76,6 +79,9 @@ func (f mField) schema() map[string]any {
 	}
 	if f.Nullable {
 		s["nullable"] = true
+	}
+	if f.SkipPtr {
+		s["x-go-type-skip-optional-pointer"] = true
 	}
 	if f.RO {
 		s["readOnly"] = true
@@ -157,6 +163,8 @@ func genMemberValue(rng *rand.Rand, kind string) any {
 		return []string{"2020-01-02T03:04:05Z", "1999-12-31T23:59:59.123456789Z", "2024-02-29T10:30:00+02:00"}[rng.Intn(3)]
 	case "email":
 		return []string{"a@b.co", "user.name+tag@example.org"}[rng.Intn(2)]
+	case "rawjson":
+		return []any{map[string]any{"deep": []any{1, "two", nil}}, "text", 12, []any{true}}[rng.Intn(4)]
 	case "arrobj":
 		l := []any{}
 		for i := 0; i < rng.Intn(3); i++ {
@@ -355,7 +363,7 @@ func runC07(r *Report, rng *rand.Rand, thorough bool) {
 	if thorough {
 		nSchemas, nInst = 300, 40
 	}
-	kinds := []string{"string", "int", "int64", "double", "bool", "date", "arr", "map", "ref", "arrobj", "inlobj", "arrref", "mapobj", "byte", "uuid", "datetime", "email", "mapnullint", "mapnullref"}
+	kinds := []string{"string", "int", "int64", "double", "bool", "date", "arr", "map", "ref", "arrobj", "inlobj", "arrref", "mapobj", "byte", "uuid", "datetime", "email", "mapnullint", "mapnullref", "rawjson"}
 	var schemas []mSchema
 	// two fixed schemas with one member of EVERY kind: all optional and non-nullable in a plain object, all required
 	for fi, req := range []bool{false, true} {
@@ -372,6 +380,12 @@ func runC07(r *Report, rng *rand.Rand, thorough bool) {
 			f := mField{Name: fmt.Sprintf("f%d", j), Required: rng.Intn(2) == 0, Nullable: rng.Intn(3) == 0, Kind: kinds[rng.Intn(len(kinds))]}
 			if f.Kind == "ref" {
 				f.Nullable = false
+			}
+			if f.Kind == "rawjson" {
+				f.Nullable = false
+			}
+			if !f.Required && !f.Nullable && (f.Kind == "string" || f.Kind == "arr" || f.Kind == "int") && rng.Intn(3) == 0 {
+				f.SkipPtr = true
 			}
 			if rng.Intn(8) == 0 {
 				f.RO = true
@@ -438,6 +452,18 @@ func runC07(r *Report, rng *rand.Rand, thorough bool) {
 					switch {
 					case f.Required && f.Nullable && rng.Intn(3) == 0:
 						inst[f.Name] = nil
+					case !f.Required && (f.SkipPtr || f.Kind == "rawjson"):
+						// without a pointer "absent" and "zero" are one state (documented for the extension): the member is
+						// either absent or holds a value that is not the zero value
+						if rng.Intn(2) == 0 {
+							v := genMemberValue(rng, f.Kind)
+							for try := 0; try < 10 && (canon(v) == canon(zeroOf(f.Kind)) || canon(v) == `""` || canon(v) == "[]" || canon(v) == "0"); try++ {
+								v = genMemberValue(rng, f.Kind)
+							}
+							if !(canon(v) == `""` || canon(v) == "[]" || canon(v) == "0") {
+								inst[f.Name] = v
+							}
+						}
 					case k <= 1 && zeroOf(f.Kind) != nil && (f.Required || k == 1):
 						// the first instance of every schema holds zero values in its required members, the second one in EVERY
 						// member: an optional member that is present with its zero value ("", 0, false, [], {}) is not absent
@@ -628,7 +654,7 @@ func runC07(r *Report, rng *rand.Rand, thorough bool) {
 		// ---- model tie (nullable-type off; readOnly / writeOnly members change the pointer rule: C08)
 		plain := !m.nt && !m.ro
 		for _, f := range m.s.Fields {
-			if f.RO || f.WO {
+			if f.RO || f.WO || f.SkipPtr || f.Kind == "rawjson" {
 				plain = false
 			}
 		}
@@ -647,5 +673,5 @@ func runC07(r *Report, rng *rand.Rand, thorough bool) {
 	}
 	ccases.WriteTo(r)
 	// ---- number without format is float32 (documented): a value needing more precision is narrowed
-	r.Rule = "two fixed object schemas with one member of every kind (all optional / all required) and object schemas from a grammar (1-5 members: required/optional x nullable x {string, int, int64, double, bool, date, byte (incl. the empty string), uuid, date-time, email, array, map, referenced object, array of inline objects with additional members, inline object with additional members, array of references, map of inline objects with additional members, dictionaries whose values are nullable integers / nullable references (explicit null values)}, some readOnly/writeOnly; additionalProperties absent / true / string / integer / array of integers / object with optional members / map of strings, with 0-3 additional members) x {default, nullable-type, disable-required-readonly-as-pointer}, plus four merged (allOf) types whose members differ in what they allow for unknown members and three union types (oneOf / anyOf / oneOf with an own property) with 64-bit extremes inside the stored member, generated and compiled; valid instances from a schema-directed generator (one instance per schema with zero values in every required member and one with zero values in every member, optional ones included, explicit nulls, absent optionals, empty arrays/maps, 64-bit extremes, float64 edge values, escaped and non-ASCII strings, extra members of the additional type) unmarshalled into the generated type and marshalled again; semantic JSON equality modulo the documented exception (oracle) and the model's re-encoded object (Coq); non-trivial = instance with at least two members"
+	r.Rule = "two fixed object schemas with one member of every kind (all optional / all required) and object schemas from a grammar (1-5 members: required/optional x nullable x {string, int, int64, double, bool, date, byte (incl. the empty string), uuid, date-time, email, array, map, referenced object, array of inline objects with additional members, inline object with additional members, array of references, map of inline objects with additional members, dictionaries whose values are nullable integers / nullable references (explicit null values), format json (json.RawMessage)}, some readOnly/writeOnly, some optional members without a pointer (x-go-type-skip-optional-pointer: absent or non-zero), some readOnly/writeOnly; additionalProperties absent / true / string / integer / array of integers / object with optional members / map of strings, with 0-3 additional members) x {default, nullable-type, disable-required-readonly-as-pointer}, plus four merged (allOf) types whose members differ in what they allow for unknown members and three union types (oneOf / anyOf / oneOf with an own property) with 64-bit extremes inside the stored member, generated and compiled; valid instances from a schema-directed generator (one instance per schema with zero values in every required member and one with zero values in every member, optional ones included, explicit nulls, absent optionals, empty arrays/maps, 64-bit extremes, float64 edge values, escaped and non-ASCII strings, extra members of the additional type) unmarshalled into the generated type and marshalled again; semantic JSON equality modulo the documented exception (oracle) and the model's re-encoded object (Coq); non-trivial = instance with at least two members"
 }
